@@ -338,6 +338,7 @@ func main() {
 	worlds := flag.Int("worlds", 1, "instantiations (fresh keys and messages) of every case")
 	extras := flag.Bool("extras", false, "also record round trips, pairings, pairing-value comparison")
 	nBig := flag.Int("bigpairs", 4, "pairings on 255-bit scalars (with --extras)")
+	sweep := flag.Int("sweep", 0, "honest sign/verify/round-trip of this many fresh random messages (completeness over messages)")
 	flag.Parse()
 	outAbs, _ := filepath.Abs(*out)
 	var cases []tcase
@@ -360,6 +361,24 @@ func main() {
 		if *extras && wi == 0 {
 			roundTrips(rng, w)
 			pairings(rng, *nBig)
+		}
+	}
+	if *sweep > 0 {
+		// the honest signature of EVERY message must verify and survive the wire form: the message
+		// enters only through the hash to the curve, so many different messages are tried
+		w := newWorld(rng)
+		c := tcase{What: "sig", Kind: "honest", Enc: "exact", Key: 1, Msg: 1}
+		for i := 0; i < *sweep; i++ {
+			n := 32
+			if i%4 == 3 {
+				n = rng.Intn(96)
+			}
+			msg := make([]byte, n)
+			rng.Read(msg)
+			sig := groupsig.Sign(w.sk[1], msg)
+			wire := sig.Serialize()
+			v, p := verify(w.pk[1], msg, wire)
+			emit("Verify", map[string]interface{}{"case": c, "applicable": true, "verdict": v, "eqHonest": true, "len": len(wire), "panicked": p})
 		}
 	}
 	tr.Close()
